@@ -111,7 +111,9 @@ def run(ctx):
 
         def nonneg(cc, val=val):
             vv = strip_refs(val)
-            direct = cc.op in ('le', 'lt') and zero(cc.left) and (cc.right is val or same_value(cc.right, val))
+            from ..flow import unround
+            r = unround(cc.right)[0]
+            direct = cc.op in ('le', 'lt') and zero(cc.left) and (cc.right is val or r is val or same_value(r, val))
             alt = cc.op in ('le', 'lt') and isinstance(vv, ast.BinOp) and isinstance(vv.op, ast.Sub) and \
                 (cc.left is vv.right or same_value(cc.left, vv.right)) and (cc.right is vv.left or same_value(cc.right, vv.left))
             return direct or alt
